@@ -110,6 +110,7 @@ func (u *uniProg) render() {
 
 func uniFamily(c *hx.Ctx) []*uniProg {
 	var out []*uniProg
+	r := proto.NewRand(proto.NewRand(c.Seed ^ 0x0b001).U64()) // its own generator, keyed by the seed
 	add := func(u uniProg) {
 		u.render()
 		out = append(out, &u)
@@ -121,7 +122,7 @@ func uniFamily(c *hx.Ctx) []*uniProg {
 		for _, tf := range uniTypedForms {
 			for _, of := range uniObsForms {
 				for _, first := range []string{"typed", "obs"} {
-					if c.Quick() && (konst == "true" && c.R.Intn(2) != 0 || konst == "false" && c.R.Intn(6) != 0) {
+					if c.Quick() && (konst == "true" && r.Intn(2) != 0 || konst == "false" && r.Intn(6) != 0) {
 						continue
 					}
 					add(uniProg{konst: konst, typ: "bool", typed: tf.name, obs: of.name, okon: konst, first: first})
@@ -131,7 +132,7 @@ func uniFamily(c *hx.Ctx) []*uniProg {
 	}
 	for _, tf := range uniTypedForms {
 		for _, of := range uniObsForms {
-			if c.Quick() && c.R.Intn(6) != 0 {
+			if c.Quick() && r.Intn(6) != 0 {
 				continue
 			}
 			add(uniProg{konst: "true", typ: "bool", typed: tf.name, obs: of.name, okon: "false", first: "obs"})
@@ -143,14 +144,14 @@ func uniFamily(c *hx.Ctx) []*uniProg {
 				if konst == "nil" && (tf.name == "const" || tf.name == "global-const" || tf.name == "default-type") {
 					continue
 				}
-				if c.Quick() && c.R.Intn(3) != 0 {
+				if c.Quick() && r.Intn(3) != 0 {
 					continue
 				}
-				of := uniObsForms[c.R.Intn(len(uniObsForms))]
+				of := uniObsForms[r.Intn(len(uniObsForms))]
 				if konst == "nil" && of.name == "short-var" {
 					of = uniObsForms[1]
 				}
-				add(uniProg{konst: konst, typ: typ, typed: tf.name, obs: of.name, okon: konst, first: []string{"typed", "obs"}[c.R.Intn(2)]})
+				add(uniProg{konst: konst, typ: typ, typed: tf.name, obs: of.name, okon: konst, first: []string{"typed", "obs"}[r.Intn(2)]})
 			}
 		}
 	}
@@ -204,6 +205,28 @@ func onlyBoolTypeNames(a, b string, defined map[string]bool) bool {
 		}
 	}
 	return differs
+}
+
+var mismatchRe = regexp.MustCompile(`mismatched types (\w+) and (\w+)\)`)
+
+// universeBoolEffect: the two results of building one source differ in the way finding
+// history-universe-bool makes them differ: both builds succeed and their disassemblies differ
+// only in bool vs a type defined on bool (onlyBoolTypeNames), or one of them fails because an
+// operation on true / false has `mismatched types bool and <such a type>`.
+func universeBoolEffect(a, b digest, defined map[string]bool) bool {
+	if a.Err == "" && b.Err == "" {
+		return onlyBoolTypeNames(a.AsmText, b.AsmText, defined)
+	}
+	for _, d := range []digest{a, b} {
+		if d.Err == "" {
+			continue
+		}
+		m := mismatchRe.FindStringSubmatch(d.Err)
+		if m == nil || !(m[1] == "bool" && defined[m[2]] || m[2] == "bool" && defined[m[1]]) {
+			return false
+		}
+	}
+	return true
 }
 
 // rebuildStream starts the child processes (every program of the family three times in a fresh
@@ -265,7 +288,7 @@ func rebuildStream(c *hx.Ctx) func(rebuildActive bool) error {
 			a, b := j.ds[0], j.ds[k]
 			// known finding: the program defines a type on bool, uses true / false, and the builds
 			// differ only in bool vs that type in the instructions (and in what the run prints)
-			if rebuildActive && a.Err == "" && b.Err == "" && boolRe.MatchString(j.u.src) && onlyBoolTypeNames(a.AsmText, b.AsmText, boolTypes(j.u.src)) {
+			if rebuildActive && boolRe.MatchString(j.u.src) && universeBoolEffect(a, b, boolTypes(j.u.src)) {
 				res.Hist("rebuild matching known finding history-universe-bool-rebuild")
 				continue
 			}
